@@ -5,6 +5,7 @@ package ref
 
 import (
 	"fmt"
+	"strconv"
 	"unicode/utf8"
 )
 
@@ -86,7 +87,6 @@ type frame struct {
 	names map[string]bool
 	count int    // members or elements completed or in progress
 	cur   string // current member name (decoded) for objects
-	ptr   string // pointer of this container
 }
 
 type parser struct {
@@ -107,14 +107,15 @@ func (p *parser) errAt(pos, tokStart int, kind ErrKind, msg string) *Err {
 	e := &Err{Pos: pos, TokStart: tokStart, Kind: kind, Msg: msg, Truncated: pos >= len(p.b) && kind == ErrSyntax}
 	if n := len(p.stack); n > 0 {
 		f := p.stack[n-1]
-		e.Ptr = f.ptr
-		e.PtrNext = f.ptr
+		ptr := p.framePtr(n - 1)
+		e.Ptr = ptr
+		e.PtrNext = ptr
 		if f.obj {
 			if f.count > 0 {
-				e.PtrNext = f.ptr + "/" + EscapePtr(f.cur)
+				e.PtrNext = ptr + "/" + EscapePtr(f.cur)
 			}
 		} else {
-			e.PtrNext = fmt.Sprintf("%s/%d", f.ptr, f.count)
+			e.PtrNext = fmt.Sprintf("%s/%d", ptr, f.count)
 		}
 	}
 	return e
@@ -534,20 +535,27 @@ func (p *parser) surrogateMismatchPos() int {
 	return p.pos
 }
 
+// framePtr builds the RFC 6901 pointer of the container at stack index i
+// (only needed when an error is reported, so it is computed on demand).
+func (p *parser) framePtr(i int) string {
+	var sb []byte
+	for k := 0; k < i; k++ {
+		f := p.stack[k]
+		sb = append(sb, '/')
+		if f.obj {
+			sb = append(sb, EscapePtr(f.cur)...)
+		} else {
+			sb = strconv.AppendInt(sb, int64(f.count), 10)
+		}
+	}
+	return string(sb)
+}
+
 func (p *parser) push(obj bool, at int) *Err {
 	if len(p.stack) >= p.maxDepth() {
 		return p.errAt(at, at, ErrDepth, "nesting too deep")
 	}
-	ptr := ""
-	if n := len(p.stack); n > 0 {
-		f := p.stack[n-1]
-		if f.obj {
-			ptr = f.ptr + "/" + EscapePtr(f.cur)
-		} else {
-			ptr = fmt.Sprintf("%s/%d", f.ptr, f.count)
-		}
-	}
-	fr := frame{obj: obj, ptr: ptr}
+	fr := frame{obj: obj}
 	if obj && !p.opt.AllowDup {
 		fr.names = map[string]bool{}
 	}
